@@ -8,17 +8,28 @@ import os, random, re, shutil, datetime
 HDR = "SID,C_org,Texture,LayerDepth,BulkDensityClass,Stone,C/N,C/S,RootDepth,NumberHorizon,FieldCapacity,WiltingPoint,PoreVolume,Sand,Silt,Clay,DrainageDepth,Drainage%,GroundWaterLevel"
 
 # (sid, [(corg, texture, depth_dm, ld, stone%, fc, wp, pv, sand, silt, clay)], route)
-SOILS = [
-    ("T1", [(0.90, "SL2", 3, 3, 0, 0, 0, 0, 73, 21, 6), (0.30, "SL4", 9, 3, 0, 0, 0, 0, 61, 27, 12), (0.10, "SS", 20, 2, 0, 0, 0, 0, 90, 6, 4)], "table"),
-    ("T2", [(1.40, "LT3", 3, 2, 0, 0, 0, 0, 30, 30, 40), (0.50, "LT3", 12, 3, 0, 0, 0, 0, 30, 30, 40), (0.20, "TU3", 20, 4, 0, 0, 0, 0, 10, 50, 40)], "table"),
-    ("T3", [(2.50, "ULS", 4, 1, 5, 0, 0, 0, 26, 63, 11), (0.60, "UT3", 15, 3, 10, 0, 0, 0, 10, 70, 20)], "table"),   # stones
-    ("T4", [(5.00, "UU", 3, 1, 0, 0, 0, 0, 5, 85, 10), (1.00, "UU", 20, 3, 0, 0, 0, 0, 5, 85, 10)], "table"),         # F13 class in a run
-    ("T5", [(1.20, "ULS", 3, 1, 30, 0, 0, 0, 26, 63, 11), (0.40, "ULS", 20, 2, 15, 0, 0, 0, 26, 63, 11)], "table"),   # many stones in the top horizon
-    ("E1", [(1.14, "ULS", 3, 2, 0, 31, 16, 45, 26, 63, 11), (0.40, "ULS", 20, 2, 0, 29, 19, 45, 26, 63, 11)], "explicit"),
-    ("E2", [(0.90, "SL2", 3, 3, 0, 22, 9, 38, 73, 21, 6), (0.30, "SL4", 10, 3, 0, 22, 12, 43, 61, 27, 12), (0.10, "SS", 20, 3, 0, 15, 5, 38, 88, 7, 5)], "explicit"),
-    ("P1", [(1.14, "ULS", 3, 2, 0, 31, 16, 45, 26, 63, 11), (0.40, "LT2", 20, 2, 0, 29, 19, 48, 30, 35, 35)], "ptf"),
-    ("P2", [(2.10, "SL3", 4, 3, 0, 24, 10, 47, 65, 25, 10), (0.30, "SL4", 20, 3, 0, 22, 12, 46, 61, 27, 12)], "ptf"),
-]
+SMALL_STONES = [0.5, 1, 1.5, 2]      # percent; a reader that took values <= 1 for fractions would turn 1 % into "all stones"
+
+
+def soils(seed):
+    """soils of the moving-groundwater projects (csv reader).  T1: sandy horizons on the table route whose organic carbon
+    lies above Hydro's humus thresholds (pore-volume bonus KRG > 0), T3: small stone percentages"""
+    rnd = random.Random(seed * 17 + 3)
+    ss = lambda: rnd.choice(SMALL_STONES + [5, 10])
+    return [
+        ("T1", [(rnd.choice([1.20, 1.40, 2.00, 2.60]), "SL2", 3, 3, 0, 0, 0, 0, 73, 21, 6), (rnd.choice([0.60, 0.70, 0.90, 1.30]), "SL4", 9, 3, 0, 0, 0, 0, 61, 27, 12),
+                (rnd.choice([0.10, 0.65]), "SS", 20, 2, 0, 0, 0, 0, 90, 6, 4)], "table"),
+        ("T2", [(1.40, "LT3", 3, 2, 0, 0, 0, 0, 30, 30, 40), (0.50, "LT3", 12, 3, 0, 0, 0, 0, 30, 30, 40), (0.20, "TU3", 20, 4, 0, 0, 0, 0, 10, 50, 40)], "table"),
+        ("T3", [(2.50, "ULS", 4, 1, ss(), 0, 0, 0, 26, 63, 11), (0.60, "UT3", 15, 3, ss(), 0, 0, 0, 10, 70, 20)], "table"),   # stones
+        ("T4", [(5.00, "UU", 3, 1, 0, 0, 0, 0, 5, 85, 10), (1.00, "UU", 20, 3, 0, 0, 0, 0, 5, 85, 10)], "table"),         # F13 class in a run
+        ("T5", [(1.20, "ULS", 3, 1, 30, 0, 0, 0, 26, 63, 11), (0.40, "ULS", 20, 2, 15, 0, 0, 0, 26, 63, 11)], "table"),   # many stones in the top horizon
+        ("T7", [(rnd.choice([0.80, 1.50, 3.00]), "SU3", 3, 2, rnd.choice([0, 1]), 0, 0, 0, 60, 32, 8), (rnd.choice([0.60, 1.20]), "SL3", 20, 3, 0, 0, 0, 0, 65, 25, 10)], "table"),
+        ("E1", [(1.14, "ULS", 3, 2, 0, 31, 16, 45, 26, 63, 11), (0.40, "ULS", 20, 2, 0, 29, 19, 45, 26, 63, 11)], "explicit"),
+        ("E2", [(0.90, "SL2", 3, 3, 0, 22, 9, 38, 73, 21, 6), (0.30, "SL4", 10, 3, 0, 22, 12, 43, 61, 27, 12), (0.10, "SS", 20, 3, 0, 15, 5, 38, 88, 7, 5)], "explicit"),
+        ("P1", [(1.14, "ULS", 3, 2, 0, 31, 16, 45, 26, 63, 11), (0.40, "LT2", 20, 2, 0, 29, 19, 48, 30, 35, 35)], "ptf"),
+        ("P2", [(2.10, "SL3", 4, 3, 0, 24, 10, 47, 65, 25, 10), (0.30, "SL4", 20, 3, 0, 22, 12, 46, 61, 27, 12)], "ptf"),
+    ]
+
 
 PALETTE = [2.0, 2.5, 3.0, 3.25, 4.0, 4.75, 5.0, 6.5, 7.0, 7.5, 8.0, 8.5, 9.0, 9.25, 11.0, 12.0, 14.6, 19.5, 20.0, 22.0, 29.0, 30.0, 36.0]
 
@@ -40,6 +51,11 @@ def file_soils(seed):
                                        (0.10, "SS", 20, 3, 0, E, E, E, 90, 6, 4)]),
         ("M2X", rnd.choice([99, 9]), [(1.30, "LT3", 3, 2, rnd.choice([0, 15]), E, E, E, 30, 30, 40), (0.40, "LT3", 20, 3, 0) + ex() + (30, 30, 40)]),
         ("M3X", 99, [(0.90, "SL2", 3, 3, 0) + ex() + (73, 21, 6), (0.30, "SL4", 10, 3, 0, E, E, E, 61, 27, 12), (0.10, "SS", 20, 3, 0) + (15, 5, 38) + (88, 7, 5)]),
+        # small stone percentages: exactly 1 % in the top horizon (table route), others from 0.5 / 1.5 / 2 / 99 ("." forms fit the
+        # two fixed columns of the txt format only for .5)
+        ("S1T", rnd.choice([99, 13]), [(1.00, "SL3", 3, 2, 1, E, E, E, 65, 25, 10), (0.40, "SL4", 10, 3, rnd.choice([0.5, 2]), E, E, E, 61, 27, 12),
+                                       (0.10, "SS", 20, 3, rnd.choice([0.5, 2, 99]), E, E, E, 90, 6, 4)]),
+        ("S2E", 99, [(1.14, "ULS", 3, 2, rnd.choice([0.5, 1, 2])) + ex() + (26, 63, 11), (0.40, "ULS", 20, 2, rnd.choice([1, 99])) + ex() + (26, 63, 11)]),
         ("T6S", rnd.choice([99, 11]), [(1.20, "ULS", 3, 1, st(), E, E, E, 26, 63, 11), (0.40, "ULS", 20, 2, 15, E, E, E, 26, 63, 11)]),
     ]
 
@@ -50,8 +66,8 @@ def soil_lines_csv(soils):
     for sid, gwl, hz in soils:
         for i, (c, tex, dep, ld, st, fc, wp, pv, sa, si, cl) in enumerate(hz):
             first = i == 0
-            out.append("%s,%.2f,%s,%02d,%d,%02d,10,00,%s,%s,%s,%s,%s,%d,%d,%d,20,00,%s" % (
-                sid, c, tex, dep, ld, st, "12" if first else "", "%02d" % len(hz) if first else "", f(fc), f(wp), f(pv), sa, si, cl,
+            out.append("%s,%.2f,%s,%02d,%d,%s,10,00,%s,%s,%s,%s,%s,%d,%d,%d,20,00,%s" % (
+                sid, c, tex, dep, ld, "%g" % st, "12" if first else "", "%02d" % len(hz) if first else "", f(fc), f(wp), f(pv), sa, si, cl,
                 "%02d" % gwl if first else "   "))
     return out
 
@@ -64,22 +80,34 @@ def soil_file_txt(soils):
     for sid, gwl, hz in soils:
         for i, (c, tex, dep, ld, st, fc, wp, pv, sa, si, cl) in enumerate(hz):
             first = i == 0
-            ln = "%-3s %4.2f %-3s %02d %d %02d 010 xxx 00 %2s %2s   %s %s %s %02d %02d %02d 00  20   0.0%02d" % (
-                sid, c, tex, dep, ld, st, "12" if first else "  ", "%02d" % len(hz) if first else "  ", f(fc), f(wp), f(pv), sa, si, cl, gwl)
-            assert len(ln) == 72 and ln[40:42] == f(fc) and ln[18:20] == "%02d" % st and ln[35:37].strip() in ("", "%02d" % len(hz)), ln
+            sts = ("%02d" % st) if st == int(st) else ("%g" % st).lstrip("0")     # 0.5 -> ".5"
+            ln = "%-3s %4.2f %-3s %02d %d %2s 010 xxx 00 %2s %2s   %s %s %s %02d %02d %02d 00  20   0.0%02d" % (
+                sid, c, tex, dep, ld, sts, "12" if first else "  ", "%02d" % len(hz) if first else "  ", f(fc), f(wp), f(pv), sa, si, cl, gwl)
+            assert len(ln) == 72 and ln[40:42] == f(fc) and float(ln[18:20]) == st and ln[35:37].strip() in ("", "%02d" % len(hz)), ln
             out.append(ln)
     return "\n".join(out) + "\n"
 
 
-def soil_file():
+def soil_file(seed):
     out = [HDR]
-    for sid, hz, _ in SOILS:
+    for sid, hz, _ in soils(seed):
         for i, (c, tex, dep, ld, st, fc, wp, pv, sa, si, cl) in enumerate(hz):
             first = i == 0
-            out.append("%s,%.2f,%s,%02d,%d,%02d,10,00,%s,%s,%d,%d,%d,%d,%d,%d,20,00,%s" % (
-                sid, c, tex, dep, ld, st, "12" if first else "", "%02d" % len(hz) if first else "", fc, wp, pv, sa, si, cl,
+            out.append("%s,%.2f,%s,%02d,%d,%s,10,00,%s,%s,%d,%d,%d,%d,%d,%d,20,00,%s" % (
+                sid, c, tex, dep, ld, "%g" % st, "12" if first else "", "%02d" % len(hz) if first else "", fc, wp, pv, sa, si, cl,
                 "99" if first else "   "))
     return "\n".join(out) + "\n"
+
+
+def expected_horizons(seed):
+    """soil id -> what the readers must hand to Input per horizon: (texture padded, LD, Corg, stone FRACTION = file value / 100,
+    UKT, FKA, WP, GPV) — the tie between the generated files and the model's inputs"""
+    exp = {}
+    for sid, hz, _ in soils(seed):
+        exp[sid] = [((tex + "   ")[:3], ld, c, st / 100, dep, float(fc), float(wp), float(pv)) for (c, tex, dep, ld, st, fc, wp, pv, sa, si, cl) in hz]
+    for sid, gwl, hz in file_soils(seed):
+        exp[sid] = [((tex + "   ")[:3], ld, c, st / 100, dep, float(fc or 0), float(wp or 0), float(pv or 0)) for (c, tex, dep, ld, st, fc, wp, pv, sa, si, cl) in hz]
+    return exp
 
 
 def gw_series(seed, start_year, n_entries=760):
@@ -147,7 +175,7 @@ def make_projects(ex, seed, thorough=False):
         cfg, n1 = re.subn(r"(?m)^GroundWaterFrom:.*$", "GroundWaterFrom: " + gwfrom, cfg)
         assert n1 == 1
         open(cfgp, "w").write(cfg)
-        open(os.path.join(dst, "soil_%s.csv" % name), "w").write(soil_file())
+        open(os.path.join(dst, "soil_%s.csv" % name), "w").write(soil_file(seed))
         start_year = int(re.search(r"(?m)^StartYear:\s*(\d+)", cfg).group(1))
         txt, ginfo = gw_series(seed, start_year, 3400 if thorough else 760)
         open(os.path.join(dst, "gw_%s.csv" % name), "w").write(txt)
@@ -199,7 +227,7 @@ def batch_lines(thorough, seed, end_year_quick=1982, end_year_thorough=1990):
         lines.append((s, tag))
 
     if thorough:
-        for soil in ("T1", "T2", "T3", "T4", "T5", "E1", "E2"):
+        for soil in ("T1", "T2", "T3", "T4", "T5", "T7", "E1", "E2"):
             add("c15g", soil, 10001, rnd.choice(["G1", "G2", "G3", "G4"]), 0, soil)
             add("c15p", soil, rnd.choice([10001, 10002, 10003]), None, 0, soil)
         for k in (1, 2, 3, 4):
@@ -211,14 +239,14 @@ def batch_lines(thorough, seed, end_year_quick=1982, end_year_thorough=1990):
         add("c15g", "T1", 10001, "G1", 0, "T1-G1")                      # F7 pattern on the table route
         add("c15g", "E1", 10001, "G1", 0, "E1-G1")                      # ... and on the restore route
         add("c15g", "T5", 10001, "G2", 0, "T5-stones")                  # regression: ULS, 30 % stones in the top horizon (fixed d7a6e7d)
-        add("c15g", rnd.choice(["T2", "T3", "T4", "T5"]), 10001, rnd.choice(["G2", "G3", "G4"]), 0, "table")
-        add("c15p", rnd.choice(["T1", "T2", "T3", "E2"]), rnd.choice([10001, 10002, 10003]), None, 0, "sinus")
+        add("c15g", rnd.choice(["T2", "T3", "T4", "T7"]), 10001, rnd.choice(["G2", "G3", "G4"]), 0, "table")
+        add("c15p", rnd.choice(["T1", "T7", "T3", "E2"]), rnd.choice([10001, 10002, 10003]), None, 0, "sinus")
         k = rnd.choice([1, 2, 3, 4])
         add("c15g", rnd.choice(["P1", "P2"]), 10001, rnd.choice(["G2", "G3"]), k, "ptf%d" % k)
         k2 = rnd.choice([1, 2, 3, 4])
         add("c15p", rnd.choice(["P1", "P2"]), rnd.choice([10001, 10003]), None, k2, "ptf%d-sinus" % k2)
     # constant groundwater: stones x explicit values, mixed profiles, both soil file readers (short runs: nothing moves)
-    fsids = ["E3S", "E4S", "M1X", "M2X", "M3X", "T6S"]
+    fsids = ["E3S", "E4S", "M1X", "M2X", "M3X", "S1T", "S2E", "T6S"]
     if thorough:
         for sid in fsids:
             add("c15s", sid, 10001, None, 0, sid + "-csv", 1981)
@@ -227,4 +255,6 @@ def batch_lines(thorough, seed, end_year_quick=1982, end_year_thorough=1990):
         flip = rnd.random() < 0.5
         for i, sid in enumerate(["E3S", "M1X", "E4S", "M2X"]):
             add("c15s" if (i % 2 == 0) != flip else "c15t", sid, 10001, None, 0, sid, 1981)
+        add("c15s", "S1T", 10001, None, 0, "S1T-csv", 1981)                 # 1 % stones through the csv reader
+        add("c15t" if flip else "c15s", "S2E", 10001, None, 0, "S2E", 1981)
     return lines
